@@ -313,7 +313,12 @@ Plan generate(Rng &rng, const Opts &opts, uint64_t)
         for (long k = 0; k < np; ++k) {
             Step s;
             s.op = "PAR";
-            s.a = {long(rng.below(uint64_t(nVars))), long(rng.below(uint64_t(nVars))), long(rng.below(uint64_t(nVars))), long(rng.below(uint64_t(nVars))), long(rng.below(1ull << 60))};
+            s.a = {long(rng.below(uint64_t(nVars))), long(rng.below(uint64_t(nVars))), long(rng.below(uint64_t(nVars))), long(rng.below(uint64_t(nVars))), long(rng.below(1ull << 60)), long(rng.below(2))};
+            if (rng.chance(1, 3)) {
+                // the same pair, or its mirror image, asked by both callers at once
+                s.a[2] = rng.chance(1, 2) ? s.a[0] : s.a[1];
+                s.a[3] = s.a[2] == s.a[0] ? s.a[1] : s.a[0];
+            }
             rest.push_back(s);
         }
     }
@@ -865,12 +870,17 @@ void execute(const Plan &plan, Ctx &ctx)
                 return false;
             };
             bool want0 = reach(i, j), want1 = reach(k, l), got0 = false, got1 = false;
-            long switches = runInterleaved([&]() { got0 = vars[i]->hasEquivalentVariable(vars[j], true); }, [&]() { got1 = vars[k]->hasEquivalentVariable(vars[l], true); }, uint64_t(s.arg(4)));
+            bool viaModel = s.arg(5) != 0 && am != nullptr; // the two callers ask the analyser model (and share its cache)
+            long switches = viaModel ? runInterleaved([&]() { got0 = am->areEquivalentVariables(vars[i], vars[j]); }, [&]() { got1 = am->areEquivalentVariables(vars[k], vars[l]); }, uint64_t(s.arg(4)))
+                                     : runInterleaved([&]() { got0 = vars[i]->hasEquivalentVariable(vars[j], true); }, [&]() { got1 = vars[k]->hasEquivalentVariable(vars[l], true); }, uint64_t(s.arg(4)));
+            if (viaModel) {
+                ctx.count("two_callers_share_the_analyser_model_cache");
+            }
             ctx.count("fault_two_caller_threads_interleaved");
             ctx.count("caller_thread_switches", switches);
             ctx.ev("PAR " + str(i) + "," + str(j) + " | " + str(k) + "," + str(l) + " -> " + str(got0) + str(got1) + " switches=" + str(switches));
             if (got0 != want0 || got1 != want1) {
-                ctx.violate("C18", "wrong-answer-hasEquivalentVariable", "two-callers-interleaved", "two caller threads asked hasEquivalentVariable(v" + str(i) + ", v" + str(j) + ") and (v" + str(k) + ", v" + str(l) + ") with their walks interleaved: answers " + str(got0) + " / " + str(got1) + ", the equivalence lists say " + str(want0) + " / " + str(want1));
+                ctx.violate("C18", viaModel ? "wrong-answer-areEquivalentVariables" : "wrong-answer-hasEquivalentVariable", "two-callers-interleaved", "two caller threads asked hasEquivalentVariable(v" + str(i) + ", v" + str(j) + ") and (v" + str(k) + ", v" + str(l) + ") with their walks interleaved: answers " + str(got0) + " / " + str(got1) + ", the equivalence lists say " + str(want0) + " / " + str(want1));
                 return;
             }
             ctx.nontrivial = true;
